@@ -366,6 +366,11 @@ func checkGrid(c gridCase) evid.Outcome {
 		if gerr == nil {
 			return evid.Fail("%s=%+v although no table resolves for these strings", call, got)
 		}
+		// independent of how the tables are keyed: whatever the two strings are, a defined data-rate has a size - an
+		// unknown version resolves to the latest one and an unknown or unlisted revision to that version's latest table
+		if defined {
+			return evid.Fail("%s: %v - DR%d is a defined data-rate of this band; version and revision strings that are not listed have to resolve to the latest table, so the lookup cannot fail for want of a table", call, gerr, c.DR)
+		}
 		return evid.Outcome{Class: "no-table"}
 	}
 	want, has := table[c.DR]
@@ -828,7 +833,7 @@ func TestProp(t *testing.T) {
 		}, checkIndex)
 
 	evid.Exhaustive(r, t, "size-grid",
-		"56 configurations x 7 protocol versions (6 named + unknown string) x 8 revisions (7 named + unknown string) x DR 0..15 through GetMaxPayloadSizeForDataRateIndex. Oracle: the documented resolution applied to the snapshot (unknown version -> latest, unknown revision -> that version's latest), which the getter must reproduce; under unknown/unknown every defined data-rate must have a size; every returned size is M=N+8 with N<=242 or the (0,0) marker (only AS923/AU915 DR0-1 under dwell time and CN470 DR0). Non-trivial: a size is returned.",
+		"56 configurations x 7 protocol versions (6 named + unknown string) x 8 revisions (7 named + unknown string) x DR 0..15 through GetMaxPayloadSizeForDataRateIndex. Oracle: the documented resolution applied to the snapshot (unknown version -> latest, unknown revision -> that version's latest), which the getter must reproduce; under unknown/unknown every defined data-rate must have a size, and for no pair of strings may the lookup of a defined data-rate fail for want of a table; every returned size is M=N+8 with N<=242 or the (0,0) marker (only AS923/AU915 DR0-1 under dwell time and CN470 DR0). Non-trivial: a size is returned.",
 		true,
 		func(emit func(gridCase)) { enumGrid(allCfgs, emit) }, checkGrid)
 
